@@ -25,7 +25,7 @@ RULE = ("exhaustive table outcome(5 plain + 6 eager × {bare, setResult, setExce
 ASSUMPTIONS = ["Redis / RabbitMQ runs use in-process fake servers (assumption sets R, A)", "in-memory broker; BaseExceptions other than _NoAction/CancelledError are outside the statement",
                "payload-bucket fetch failures happen before actor_run and are not in the statement's list"]
 
-PLAIN = [{"k": "ret"}, {"k": "raise"}, {"k": "timeout"}, {"k": "depFail"}]
+PLAIN = [{"k": "ret"}, {"k": "raise"}, {"k": "timeout"}, {"k": "depFail"}, {"k": "badret"}]
 APIS = ["ack", "nack", "reject", "reschedule", ["retry", None], ["retry", 2 * S], ["forceRetry", None], ["forceRetry", 3 * S]]
 PRES = [[], ["setResult"], ["setException"], [["cb", 1, False]], [["cb", 1, True]], [["cb", 1, False], "setResult", ["cb", 2, False]],
         ["setResult", "setException"]]
